@@ -77,6 +77,15 @@ CHECKS.update({
             TRUST_HTTP + ' Oracles self-tested against FIPS-197 vectors.', '4.11'),
 })
 
+CHECKS.update({
+    'C14': ('exploration',
+            'offline exactly-once checker over recorded histories of consecutive segment responses (emsg boxes read by the independent walker), EventStream-vs-schedule check, independent SCTE-35 bit reader + CRC-32/MPEG-2, encode/parse identity monitor on BinarySignal',
+            'Generated schedules x runs of consecutive video segments in vod ($Number$/$Time$) and live (everything a manifest advertises, across '
+            'loops); expected event set computed in exact rationals; every SCTE-35 payload decoded independently; thousands of generated '
+            'splice_info_sections round-tripped.',
+            TRUST_HTTP + ' SCTE-35 reader self-tested on the two ANSI/SCTE 35 section 14 examples, CRC on the standard check value.', '4.14'),
+})
+
 NOT_YET = {}
 
 
